@@ -98,6 +98,31 @@ theorem converted_paths_injective (st : St) (dir : Str) (n₁ n₂ j k₁ k₂ :
 /-- `str(n)` is injective (uids and result names are numbered) -/
 theorem decimal_injective (n m : Nat) (h : Nat.toDigits 10 n = Nat.toDigits 10 m) : n = m := toDigits_inj n m h
 
+/-- `Job._get_resource(item)`: a new job resource file gets the identifier **itself** as its file name — for every string
+(`j['chr1:100']`, `j['out 1']`, `j['a/b']`, non-ASCII, … ; nothing is rejected, nothing is rewritten) -/
+theorem job_resource_is_named_by_its_identifier (st : St) (j : Nat) (ident : Str)
+    (hnew : (st.job j).resources.lookup ident = none) (hfresh : st.files.lookup st.rfCount = none) :
+    (getJobResource st j ident).2 = .file st.rfCount ∧
+      (getJobResource st j ident).1.file? st.rfCount = some (.jobFile j ident none false) := by
+  simp only [getJobResource, hnew]
+  refine ⟨by simp, ?_⟩
+  simp only [St.file?, St.updJob]
+  rw [List.lookup_append, hfresh]
+  simp
+
+/-- **path_injective over ALL identifiers**: two resource files of one job whose file names are their identifiers have the same
+path only if the identifiers are the same string — whatever characters they contain (colon, space, slash, case, length, …) -/
+theorem job_resource_path_injective_in_identifier (st : St) (dir : Str) (j n₁ n₂ : Nat) (i₁ i₂ : Str) (g₁ g₂ : Option Nat)
+    (e₁ e₂ : Bool) (h₁ : st.file? n₁ = some (.jobFile j i₁ g₁ e₁)) (h₂ : st.file? n₂ = some (.jobFile j i₂ g₂ e₂))
+    (hd : '/' ∉ (st.job j).dirname) (h : st.path dir (.file n₁) = st.path dir (.file n₂)) : i₁ = i₂ := by
+  have := (path_injective_partial st dir n₁ n₂ _ _ h₁ h₂ (by simpa [FileRes.source, St.subdir] using hd)
+    (by simpa [FileRes.source, St.subdir] using hd) h).2
+  simpa [FileRes.value] using this
+
+/-- the local path of a job resource file as a function of the identifier is injective outright (fixed directory and job) -/
+theorem job_file_path_injective (dir dirname i₁ i₂ : Str) (h : dir ++ ['/'] ++ dirname ++ ['/'] ++ i₁ = dir ++ ['/'] ++ dirname ++ ['/'] ++ i₂) :
+    i₁ = i₂ := List.append_cancel_left h
+
 /-- full statement of `path_injective`: in every state a program can reach, distinct file resources have distinct paths -/
 def PathInjective : Prop :=
   ∀ (prog : List Stmt) (st : St), run prog = .ok st → ∀ n₁ n₂ f₁ f₂, st.file? n₁ = some f₁ → st.file? n₂ = some f₂ → n₁ ≠ n₂ →
@@ -371,6 +396,10 @@ example : convValue 0 .json = ['r', 'e', 's', 'u', 'l', 't', '1', '-', 'j', 's',
 example : isLocalInput ['/', 'd', '/', 'r', '.', 'f', 'a'] = true := by decide
 example : isLocalInput ['f', 'i', 'l', 'e', ':', '/', '/', '/', 'd'] = true := by decide
 example : isLocalInput ['g', 's', ':', '/', '/', 'b', '/', 'o'] = false := by decide
+-- identifiers that a "clean-up" of the file name would merge stay apart
+example : (match run [.job none, .cmd 0 [.text ['x', ' '], .ref (.jobAttr 0 ['c', ':', '1']), .text [' '], .ref (.jobAttr 0 ['c', '_', '1'])]] with
+    | .ok st => some (st.path [] (.file 0), st.path [] (.file 1))
+    | .error _ => none) = some (['/', 't', 'k', '1', '/', 'c', ':', '1'], ['/', 't', 'k', '1', '/', 'c', '_', '1']) := by decide
 -- uids
 example : uid .rf 12 = ['_', '_', 'R', 'E', 'S', 'O', 'U', 'R', 'C', 'E', '_', 'F', 'I', 'L', 'E', '_', '_', '1', '2'] := by decide
 -- shlex.quote
